@@ -360,8 +360,11 @@ def gen_cases(rng, n, tier):
             if rng.random() < 0.25 and k >= 2:
                 j = rng.randrange(k - 1)
                 vs[j + 1] = list(vs[j])  # repeated vertex
-            cases.append({"kind": "generic", "exact": False, "closed": closed, "ref": [float(x) for x in ref],
-                          "normal": [float(x) for x in nrm], "v": vs})
+            c = {"kind": "generic", "exact": False, "closed": closed, "ref": [float(x) for x in ref],
+                 "normal": [float(x) for x in nrm], "v": vs}
+            if expected_slice(_F(c["ref"]), _F(c["normal"]), [_F(p) for p in vs], closed, False)[0] == "undecided":
+                c["kind"] = "generic_undecided"  # only the sign-independent clauses are judged
+            cases.append(c)
         else:
             # one segment against an axis-aligned plane: dyadic t, in range / out of range / parallel / degenerate
             ax = rng.randrange(3)
